@@ -80,11 +80,16 @@ func c11line(t *simrt.Tape, tags []string) string {
 			"* NAMESPACE ((" + lit + `pfx "/")) NIL NIL`, "* 1 FETCH (ENVELOPE (" + lit + "date NIL NIL NIL NIL NIL NIL NIL NIL NIL))", "* ESEARCH (TAG " + lit + "T3) ALL 1",
 			"* METADATA " + lit + "INBOX (/private/x NIL)", `* METADATA "INBOX" (/private/x ` + lit + "v)", "* OK [BADCHARSET (" + lit + "x)] text", "* 1 FETCH (BODY (\"TEXT\" " + lit + "plain"}[t.Choose(10)]
 	case 0:
-		return "* " + n() + " EXISTS"
+		return "* " + n() + " " + anyCase(t, "EXISTS")
 	case 1:
-		return "* " + n() + " EXPUNGE"
+		// (zero is the invalid number that matters most here; response names are case-insensitive)
+		num := n()
+		if t.Choose(3) == 0 {
+			num = "0"
+		}
+		return "* " + num + " " + anyCase(t, "EXPUNGE")
 	case 2:
-		return "* " + n() + " RECENT"
+		return "* " + n() + " " + anyCase(t, "RECENT")
 	case 3, 4:
 		items := []string{}
 		for i, k := 0, 1+t.Choose(5); i < k; i++ {
@@ -114,7 +119,11 @@ func c11line(t *simrt.Tape, tags []string) string {
 				items = append(items, "MODSEQ ("+n()+")")
 			}
 		}
-		return "* " + n() + " FETCH (" + strings.Join(items, " ") + ")"
+		num := n()
+		if t.Choose(4) == 0 {
+			num = "0"
+		}
+		return "* " + num + " " + anyCase(t, "FETCH") + " (" + strings.Join(items, " ") + ")"
 	case 5:
 		return `* LIST (\HasNoChildren \Marked) "/" "box` + small() + `"` + []string{"", ` ("CHILDINFO" ("SUBSCRIBED"))`, ` ("OLDNAME" ("old"))`}[t.Choose(3)]
 	case 6:
@@ -200,11 +209,36 @@ func c11line(t *simrt.Tape, tags []string) string {
 	}
 }
 
+// anyCase renders a keyword in upper, lower or mixed case.
+func anyCase(t *simrt.Tape, w string) string {
+	switch t.Choose(4) {
+	case 1:
+		return strings.ToLower(w)
+	case 2:
+		return w[:1] + strings.ToLower(w[1:])
+	}
+	return w
+}
+
 func c11mutate(t *simrt.Tape, s string) string {
 	if len(s) == 0 {
 		return s
 	}
-	switch t.Choose(10) {
+	switch t.Choose(11) {
+	case 10: // response names and keywords are case-insensitive: change the case of one word
+		f := strings.Fields(s)
+		for k := 0; k < len(f); k++ {
+			i := (k + t.Choose(len(f))) % len(f)
+			if w := f[i]; len(w) > 1 && w[0] >= 'A' && w[0] <= 'Z' {
+				if t.Choose(2) == 0 {
+					f[i] = strings.ToLower(w)
+				} else {
+					f[i] = w[:1] + strings.ToLower(w[1:])
+				}
+				break
+			}
+		}
+		return strings.Join(f, " ")
 	case 0: // truncate
 		return s[:t.Choose(len(s))]
 	case 1: // flip a byte
@@ -337,10 +371,19 @@ func walkBody(bs imap.BodyStructure) {
 	})
 }
 
-func walkThread(d imapclient.ThreadData, depth int) {
-	for _, s := range d.SubThreads {
-		walkThread(s, depth+1)
+// walkThread visits a delivered thread tree; it reports whether a message number 0 occurs in it.
+func walkThread(d imapclient.ThreadData, depth int) (zero bool) {
+	for _, n := range d.Chain {
+		if n == 0 {
+			zero = true
+		}
 	}
+	for _, s := range d.SubThreads {
+		if walkThread(s, depth+1) {
+			zero = true
+		}
+	}
+	return zero
 }
 
 func runC11(r *R) {
@@ -484,7 +527,21 @@ func runC11(r *R) {
 				}
 			}
 		})
-		c := imapclient.New(cc, nil)
+		// unilateral data goes to a handler: invalid numbers must not reach it either
+		c := imapclient.New(cc, &imapclient.Options{UnilateralDataHandler: &imapclient.UnilateralDataHandler{
+			Expunge: func(seqNum uint32) {
+				if seqNum == 0 {
+					r.Violate("invalid-data-delivered", "unilateral EXPUNGE", "the unilateral-data handler received an EXPUNGE of sequence number 0")
+				}
+			},
+			Fetch: func(msg *imapclient.FetchMessageData) {
+				if msg.SeqNum == 0 {
+					r.Violate("invalid-data-delivered", "unilateral FETCH", "the unilateral-data handler received FETCH data for sequence number 0")
+				}
+				for msg.Next() != nil {
+				}
+			},
+		}})
 		callerDone := make(chan struct{})
 		simrt.GoTask("caller", func() {
 			defer close(callerDone)
@@ -672,10 +729,13 @@ func c11Issue(c *imapclient.Client, kind string) c11pending {
 		x := c.Thread(&imapclient.ThreadOptions{Algorithm: imap.ThreadReferences, SearchCriteria: &imap.SearchCriteria{}})
 		return c11pending{"THREAD", func() (error, []string) {
 			d, err := x.Wait()
+			var pr []string
 			for _, th := range d {
-				walkThread(th, 0)
+				if walkThread(th, 0) {
+					pr = append(pr, "THREAD result containing message number 0 delivered")
+				}
 			}
-			return err, nil
+			return err, pr
 		}}
 	case "quota":
 		x := c.GetQuota("root")
@@ -730,7 +790,16 @@ func c11Issue(c *imapclient.Client, kind string) c11pending {
 		}}
 	case "expunge":
 		x := c.Expunge()
-		return c11pending{"EXPUNGE", func() (error, []string) { _, err := x.Collect(); return err, nil }}
+		return c11pending{"EXPUNGE", func() (error, []string) {
+			nums, err := x.Collect()
+			var pr []string
+			for _, n := range nums {
+				if n == 0 {
+					pr = append(pr, "EXPUNGE of sequence number 0 delivered")
+				}
+			}
+			return err, pr
+		}}
 	case "capability":
 		x := c.Capability()
 		return c11pending{"CAPABILITY", func() (error, []string) {
